@@ -165,6 +165,8 @@ def plan(rng, tier):
             op = ["resolve", st(), st(), st(),
                   rng.choice([[0, 0, 0], [0, 0, 0], [1, 1, 1], [1, 2, 1],
                               [1, 1, 2], [0, 1, 0], [1, 0, 1]])]
+        elif r < 0.42 and mapping:
+            op = ["byValue", g.val()]
         elif r < 0.44:
             op = ["pickle", rng.randrange(6)]
         elif r < 0.47:
